@@ -25,7 +25,28 @@ def cases(draw, tier):
                            for p, it in M.iter_items(m)):
         # ... which exists only if the whole file is bound: a top namespace may cut it off
         opts = dict(opts, top=[])
+    if opts['top'] and opts['top'] != ['nosuch'] and draw(st.integers(0, 2)) == 0:
+        # a namespace on the path to (or equal to) the top namespace is opened twice: no
+        # submodule variable belongs to it, so both blocks must simply be bound
+        k = draw(st.integers(1, len(opts['top'])))
+        m = _split_block(draw, m, tuple(opts['top'][:k]))
     return (m, opts)
+
+
+def _split_block(draw, node, path):
+    """Cut the first block of namespace `path` into two adjacent blocks of the same name."""
+    content = list(node.content)
+    for i, it in enumerate(content):
+        if isinstance(it, M.Namespace) and it.name == path[0]:
+            if len(path) > 1:
+                content[i] = _split_block(draw, it, path[1:])
+            else:
+                n = len(it.content)
+                cut = draw(st.integers(1, n - 1)) if n >= 2 else draw(st.integers(0, n))
+                content[i:i + 1] = [M.Namespace(it.name, tuple(it.content[:cut])),
+                                    M.Namespace(it.name, tuple(it.content[cut:]))]
+            break
+    return replace(node, content=tuple(content))
 
 
 def check(case):
@@ -76,6 +97,8 @@ def features(case):
             f.add('top-missing')
     if opts['ignore']:
         f.add('ignore')
+    if _reopened(m):
+        f.add('top-path-reopened')
     if opts['boost']:
         f.add('boost')
     import keyword
@@ -102,6 +125,12 @@ def features(case):
     return f
 
 
+def _reopened(node):
+    names = [it.name for it in node.content if isinstance(it, M.Namespace)]
+    return len(names) != len(set(names)) or any(
+        _reopened(it) for it in node.content if isinstance(it, M.Namespace))
+
+
 def from_replay(o):
     m = M.from_json(o['model']) if 'model' in o else reader.read(o['text'])
     return (m, o['options'])
@@ -118,7 +147,9 @@ SPEC = Spec(
     nontrivial=lambda c, f: bool(f & {'top-depth-1', 'top-depth-2', 'top-depth-3', 'ignore',
                                       'keyword-name', 'special-name', 'ns-depth>=2'}),
     rule="Hypothesis draws a semantic-profile module and an option set: top namespace (an "
-         "existing path of depth 1..3, a missing one, or global), ignore list (0..3 generated "
+         "existing path of depth 1..3, a missing one, or global; in a third of the cases with a top "
+         "namespace one block on the path to it, or the top namespace itself, is cut into two "
+         "blocks of the same name), ignore list (0..3 generated "
          "classes incl. template instantiations and typedef'd ones, spelled as C++ names, plus "
          "unknown names), serialization flag. Oracle: the multiset of binding records scanned "
          "from the emitted TU (vlib.pyscan: submodules, classes with base, constructors with "
